@@ -324,6 +324,13 @@ def verdict (p : Parsed) (impl : Impl) : String :=
           | "ok", some (k, h) =>
               s!"FAIL split wrap: the cluster {h} of segment {k} is divided among several cells (a line segment ends inside it)"
           | v, _ => v
+        else if ["setcell", "fill"].contains p.kind then
+          -- the primitives themselves: a wide cell accepted on the last column of the window (or of an
+          -- ancestor) is displayed beyond it — `SetCell` looks at the cell's column only (finding F111b)
+          match spill p (fun x y => decide (Spec.Window.visible win s x y)) s impl.cells with
+          | some (x, y, w, xo) =>
+              s!"FAIL spill-primitive {p.kind}: the cell of width {w} placed at {x},{y} is displayed up to column {xo}, outside the clip region"
+          | none => "ok"
         else "ok"
 
 def charsStr (l : List Chr) : String :=
